@@ -202,10 +202,10 @@ Definition set_blockmaps (c : ctrl) (bl : list (N * block)) (nbb bbn em tr : lis
      c_tracker := tr; c_full := c_full c |}.
 
 (* the affinity part of onBlockUpdated.  Pinned code: a block whose affinity moves from one host straight to another
-   (or to a non-host affinity) keeps its entry under the old node in blocksByNode.  [fix] = with
+   (or to a non-host affinity) keeps its entry under the old node in blocksByNode.  [fx] = with
    fixes/C23-block-affinity-moved.patch: the old entry is dropped whenever the node changes. *)
-Definition update_affinity (fix : bool) (b : N) (af : aff) (c : ctrl) : ctrl :=
-  if fix then
+Definition update_affinity (fx : bool) (b : N) (af : aff) (c : ctrl) : ctrl :=
+  if fx then
     let n := match af with AffHost n => n | _ => 0 end in
     let c1 := match mget b (c_nbb c) with
               | Some old => if N.eqb old n then c
@@ -416,8 +416,8 @@ Definition gc_fixed (w : world) (max_batch : N) (order1 order2 : list id) (c : c
   let opts := map (opt_of c1) (gc_assemble max_batch (gc_candidates c1 order2)) in
   (fold_left release_opt opts c1, opts).
 
-Definition gc_known_leaks (fix : bool) (w : world) (max_batch : N) (order : list id) (c : ctrl) : ctrl * list relopt :=
-  if fix then gc_fixed w max_batch order order c else gc_pinned w max_batch order c.
+Definition gc_known_leaks (fx : bool) (w : world) (max_batch : N) (order : list id) (c : ctrl) : ctrl * list relopt :=
+  if fx then gc_fixed w max_batch order order c else gc_pinned w max_batch order c.
 
 (* ---------- releaseUnusedBlocks ---------- *)
 
